@@ -32,6 +32,8 @@ class Library:
 
     # ---- types
     def type_deps(self, ct):
+        if ct.startswith('pair_'):
+            return [x.rstrip(' *') for x in self.ty.pair_elems[ct]]
         return []
 
     def type_def(self, ct):
@@ -48,9 +50,12 @@ class Library:
         if ct.startswith('vecit_') or ct.startswith('deqit_'):
             return ['typedef struct %s { uint64_t vid; uint64_t i; uint64_t n; } %s;' % (ct, ct)]
         if ct.startswith('mapit_'):
-            return ['typedef struct %s { hnd_t map; uint64_t pos; _Bool valid; _Bool is_end; } %s;' % (ct, ct)]
-        if ct.startswith('pair_') or ct.startswith('tuple_'):
-            raise_unsupported('pair/tuple type %s needs a spec-level definition' % ct)
+            return ['typedef struct %s { hnd_t map; uint64_t pos; uint64_t n; _Bool valid; } %s;' % (ct, ct)]
+        if ct.startswith('pair_'):
+            a, b = self.ty.pair_elems[ct]
+            return ['typedef struct %s { %s first; %s second; } %s;' % (ct, a, b, ct)]
+        if ct.startswith('tuple_'):
+            raise_unsupported('tuple type %s needs a spec-level definition' % ct)
         if ty.kinds.get(ct) == 'handle':
             return ['typedef hnd_t %s;' % ct]
         if ty.kinds.get(ct) == 'value':
@@ -76,6 +81,10 @@ class Library:
                 f.update(self.vecit(n, ct, e))
             elif ct.startswith('uptr_'):
                 f.update(self.uptr(n, ct, e))
+            elif ct.startswith('mapit_'):
+                f.update(self.mapit(n, ct, e))
+            elif ct.startswith('uset_') or ct.startswith('umap_'):
+                f.update(self.assoc(n, ct, e))
             if ty.kinds.get(ct) == 'handle' and ct != 'str_t':
                 f[n + '__ctor0'] = 'static inline %s %s__ctor0(void) { return (%s)0; }' % (ct, n, ct)
         f.update(self.chrono())
@@ -96,8 +105,9 @@ class Library:
                     continue
                 if re.search(r'\b%s\s*\(' % re.escape(name), text):
                     seen.add(name)
-                    if re.search(r'\b%s\s*\(' % re.escape(name), spec_text):
-                        continue      # overridden by the unit's spec
+                    if re.search(r'^[A-Za-z_][\w \*]*\b%s\s*\(' % re.escape(name), spec_text, re.M) or \
+                            re.search(r'^#define\s+%s\b' % re.escape(name), spec_text, re.M):
+                        continue      # defined (overridden) by the unit's spec
                     need.append((name, code))
                     text += '\n' + code
                     changed = True
@@ -211,6 +221,38 @@ class Library:
                                'dereferenced at or past end()"); return %s__elem(a.vid, a.i); }' % (e, n, ct, vn))
         f[n + '__op_arrow'] = ('static inline %s %s__op_arrow(%s a) { __CPROVER_assert(a.i < a.n, "UB: vector iterator '
                                'dereferenced at or past end()"); return %s__elem(a.vid, a.i); }' % (e, n, ct, vn))
+        return f
+
+    # -- read-only view of unordered_set / unordered_map: size and elements are uninterpreted
+    #    functions of the container handle (consistent across calls); iteration by position.
+    #    Units that mutate a container give their own ghost model in the spec header.
+    def assoc(self, n, ct, e):
+        ty = self.ty
+        f = {}
+        it = ty.assoc_iter.get(ct)
+        f[n + '__size'] = ('uint64_t __CPROVER_uninterpreted_size_%s(%s);\n'
+                           'static inline uint64_t %s__size(%s c) { uint64_t k = __CPROVER_uninterpreted_size_%s(c); '
+                           '__CPROVER_assume(k <= VEC_MAX); return k; }' % (n, ct, n, ct, n))
+        f[n + '__empty'] = 'static inline _Bool %s__empty(%s c) { return %s__size(c) == 0; }' % (n, ct, n)
+        if it:
+            itn = S(it)
+            f[n + '__begin'] = ('static inline %s %s__begin(%s c) { %s it; it.map = c; it.pos = 0; it.n = %s__size(c); '
+                                'it.valid = 1; return it; }' % (it, n, ct, it, n))
+            f[n + '__end'] = ('static inline %s %s__end(%s c) { %s it; it.map = c; it.n = %s__size(c); it.pos = it.n; '
+                              'it.valid = 1; return it; }' % (it, n, ct, it, n))
+        return f
+
+    def mapit(self, n, ct, e):
+        f = {}
+        f[n + '__op_eq'] = 'static inline _Bool %s__op_eq(%s a, %s b) { return a.pos == b.pos; }' % (n, ct, ct)
+        f[n + '__op_ne'] = 'static inline _Bool %s__op_ne(%s a, %s b) { return a.pos != b.pos; }' % (n, ct, ct)
+        f[n + '__op_inc'] = ('static inline %s %s__op_inc(%s *a) { __CPROVER_assert(a->valid && a->pos < a->n, '
+                             '"UB: increment of an invalid or end() container iterator"); a->pos = a->pos + 1; return *a; }' % (ct, n, ct))
+        f[n + '__elem'] = '%s __CPROVER_uninterpreted_elem_%s(hnd_t, uint64_t);\nstatic inline %s %s__elem(hnd_t m, uint64_t pos) { return __CPROVER_uninterpreted_elem_%s(m, pos); }' % (e, n, e, n, n)
+        f[n + '__op_deref'] = ('static inline %s %s__op_deref(%s a) { __CPROVER_assert(a.valid && a.pos < a.n, '
+                               '"UB: dereference of an invalid or end() container iterator"); return %s__elem(a.map, a.pos); }' % (e, n, ct, n))
+        f[n + '__op_arrow'] = ('static inline %s %s__op_arrow(%s a) { __CPROVER_assert(a.valid && a.pos < a.n, '
+                               '"UB: dereference of an invalid or end() container iterator"); return %s__elem(a.map, a.pos); }' % (e, n, ct, n))
         return f
 
     def uptr(self, n, ct, e):
